@@ -320,6 +320,29 @@ def judge_views(c, b):
 
 def judge_design(c, b, drv, per_valid, cap):
     cmds, meta = c04.plan(b, c.seed, per_valid, cap)
+    # a service that returns the ZERO value of a result attribute that is required and has a default: the documented schema requires the
+    # property, so the response has to carry it (the other plans leave zero values of defaulted attributes out, see c04.transmitted)
+    for s in b.design["services"]:
+        for m in s["methods"]:
+            if not m.get("http") or not m.get("result") or not b.schema.is_object(m["result"]):
+                continue
+            rng = e2e.rng_for(c.seed, "c14zero", b.index, s["name"], m["name"])
+            locs = e2e.locations_of(m)
+            p = e2e.gen_object(b.schema, m["payload"], rng, "body", 0, locs) if m.get("payload") else None
+            res = e2e.gen_value(b.schema, m["result"], rng, "body")
+            if (m.get("payload") and (p is None or not c04.path_safe(b.schema, m["payload"], p, locs))) or not isinstance(res, dict):
+                continue
+            ra = b.schema.resolve(m["result"])
+            rl = {mp["attr"] for r0 in (m.get("http") or {}).get("responses") or [] for mp in (r0.get("headers") or []) + (r0.get("cookies") or [])}
+            zeros = {}
+            for fn, fa in b.schema.fields(m["result"]):
+                fr = b.schema.resolve(fa)
+                pr = (fr.get("type") or {}).get("prim")
+                if fn in (ra.get("required") or []) and fr.get("has_default") and fn not in rl and not fr.get("val") and pr and pr not in ("Bytes", "Any"):
+                    zeros[fn] = False if pr == "Boolean" else "" if pr == "String" else 0
+            if zeros:
+                cmds.append({"op": "call", "service": s["name"], "method": m["name"], "payload": p, "script": {"result": dict(res, **zeros)}})
+                meta.append((s, m, "response", "zero-of-required-default", p, locs, True))
     if not cmds:
         return
     obs, err = b.run(cmds)
@@ -540,7 +563,7 @@ def judge_design(c, b, drv, per_valid, cap):
                 else:
                     c.hist("kin_vs_server_not_reported", ("rejects:" + kc) if not doc_ok else ("accepts:" + lc2))
         # responses produced for valid results only (an invalid result is a defect of the service method)
-        if (side == "request" or label == "valid") and server_ok and 200 <= (w.get("status") or 0) < 300:
+        if (side == "request" or label in ("valid", "zero-of-required-default")) and server_ok and 200 <= (w.get("status") or 0) < 300:
             c.hist("response", "conforms" if v.get("response_ok") else "does not conform")
             if not v.get("response_documented"):
                 c.fail("c14/success-status-undocumented", "%s.%s: status %s is not documented" % (s["name"], m["name"], w.get("status")), input=inp, design=b.design)
